@@ -27,10 +27,11 @@ def dec(v):
 
 
 class Poly(Problem):
-    def __init__(self, dat, kinds, fmt):
+    def __init__(self, dat, kinds, fmt, int_dtype=False):
         D = DATA[dat]
         self.D = D
         self.fmt = fmt
+        self.mdtype = int if int_dtype else float     # integer-valued derivatives returned with an integer dtype
         lo = np.array([fv(ROWS[k][0]) for k in kinds])
         hi = np.array([fv(ROWS[k][1]) for k in kinds])
         super().__init__(np.array([fv(v) for v in D["lx"]]), np.array([fv(v) for v in D["ux"]]), cons_lb=lo, cons_ub=hi)
@@ -50,12 +51,12 @@ class Poly(Problem):
     def cons_jac(self, x):
         D = self.D
         J = np.array([[D["A"][i][0] + D["d"][i] * x[0], D["A"][i][1]] for i in range(2)], dtype=float)
-        return sps.coo_matrix(J).asformat(self.fmt)
+        return sps.coo_matrix(J.astype(self.mdtype)).asformat(self.fmt)
 
     def lag_hess(self, x, y):
         D = self.D
         H = np.array([[D["q"][0] + y[0] * D["d"][0] + y[1] * D["d"][1], D["r"]], [D["r"], D["q"][1]]], dtype=float)
-        return sps.coo_matrix(H).asformat(self.fmt)
+        return sps.coo_matrix(H.astype(self.mdtype)).asformat(self.fmt)
 
 
 def same(a, b):
@@ -64,8 +65,8 @@ def same(a, b):
     return a.shape == b.shape and bool(np.all((a == b) | (np.isnan(a) & np.isnan(b))))
 
 
-def replay(c, out, fmt):
-    prob = Poly(c["dat"], c["kinds"], fmt)
+def replay(c, out, fmt, int_dtype=False):
+    prob = Poly(c["dat"], c["kinds"], fmt, int_dtype)
     sc = Scaling(np.array(c["vw"], dtype=int), np.array(c["cw"], dtype=int), int(c["ow"]))
     params = Params(scaling=sc, scaling_type=ScalingType.Custom)
     tr = Transformation(prob, params)
@@ -110,14 +111,15 @@ def main():
                 continue
             c, out = st["c"], st["out"]
             try:
-                errs = replay(c, out, fmts[si % 3])
+                errs = replay(c, out, fmts[si % 3], int_dtype=(si % 5 == 0))
             except Exception as e:  # noqa
                 errs = ["exception:" + type(e).__name__]
             chk.case(si)
             if len(chk.samples) < 2 and si % 1201 == 0:
                 chk.samples.append({"case": _plain(c), "expected": _plain(out)})
             for e in errs:
-                chk.kernel_violation(("transform." + e, tuple(c["kinds"])), {"case": _plain(c), "expected": _plain(out)})
+                chk.kernel_violation(("transform." + e, tuple(c["kinds"]), "int" if si % 5 == 0 else "float"),
+                                     {"case": _plain(c), "expected": _plain(out), "callback_dtype": "int" if si % 5 == 0 else "float"})
         chk.traces += chk.cases
     chk.assumptions += ["exactness domain: small integer data, weights in -2..1; all quantities are multiples of 2^-8 and exact in binary64 "
                         "(invariant C04_Exact of the spec)", "overflow/underflow excluded as in the statement"]
